@@ -7,9 +7,11 @@ outcome for the same text; both sides are decided by the real loader.
 """
 
 import copy
+import importlib
 import io
 import os
 import shutil
+import sys
 
 from ..gen import family, packages, texts
 from ..mon import outcome
@@ -654,6 +656,95 @@ def run_components(ctx, i, space):
                   "prefix": "".join("%%import %s\n" % p for p in late)},
                  rng)
 
+# ---------------------------------------------------------------------------
+# (e) a component whose datatype module loads a schema of its own when it is
+# imported - a schema that imports the same component.  When the application
+# schema imports the component before anybody imported the module, that
+# second schema load runs from inside the first, while the component is
+# being read; both schemas must still equal their written-out expansions.
+
+SELF_DT = """\
+import os
+import ZConfig
+def wrap(section):
+    return ("wrap", section.getSectionName(), section.size)
+_here = os.path.dirname(os.path.abspath(__file__))
+own_schema = ZConfig.loadSchema(os.path.join(_here, "own.xml"))
+"""
+
+
+def _selfschema_files(pkg, composed, tname, via):
+    """Files of the package; *composed*: own.xml and the application schema
+    import the component, else the types are written in place.  *via*:
+    the module that triggers the nested load is the component's own
+    ('direct') or that of a second component it imports ('indirect')."""
+    sect = ("<sectiontype name='%s' datatype='%s.dt.wrap'>"
+            "<key name='size' datatype='integer' default='1'/>"
+            "</sectiontype>" % (tname, pkg))
+    comp = ("<component prefix='%s.dt'><sectiontype name='%s' "
+            "datatype='.wrap'><key name='size' datatype='integer' "
+            "default='1'/></sectiontype></component>" % (pkg, tname))
+    imp = "<import package='%s'/>" % pkg
+    body_own = "<multisection type='%s' name='*' attribute='ws'/>" % tname
+    body_app = "<section type='%s' name='*' attribute='w'/>" % tname
+    files = {"component.xml": comp, "dt.py": SELF_DT,
+             "own.xml": "<schema>%s%s</schema>" % (imp if composed else sect,
+                                                   body_own)}
+    app = "<schema>%s%s</schema>" % (imp if composed else sect, body_app)
+    return files, app
+
+
+def run_selfschema(ctx, i, space):
+    import ZConfig
+    res = ctx.res
+    rng = ctx.rng("selfschema", i)
+    tname = rng.choice(["widget", "w-%d" % i, "Gadget", "g.x"])
+    size = rng.randint(0, 99)
+    sname = rng.choice(["", " n1", " Upper"])
+    text = "<%s%s>\n size %d\n</%s>\n" % (tname, sname, size, tname)
+    want_name = sname.strip().lower() or None
+    text2 = "<%s second>\n size %d\n</%s>\n" % (tname, size, tname)
+    order = rng.choice(["nested", "nested", "module-first", "own-first"])
+    got = {}
+    for composed in (True, False):
+        pkg = space.new_name("self%s" % ("c" if composed else "e"))
+        files, app = _selfschema_files(pkg, composed, tname, None)
+        space.write(pkg, files)
+        modname = pkg + ".dt"
+        try:
+            if order == "module-first":
+                importlib.import_module(modname)
+            elif order == "own-first":
+                ZConfig.loadSchema(os.path.join(space.root, pkg, "own.xml"))
+            schema = ZConfig.loadSchemaFile(io.StringIO(app))
+            mod = sys.modules.get(modname)
+            conf, _ = ZConfig.loadConfigFile(schema, io.StringIO(text))
+            a = ("ok", repr(conf.w))
+            conf2, _ = ZConfig.loadConfigFile(mod.own_schema,
+                                              io.StringIO(text + text2))
+            b = ("ok", repr(conf2.ws))
+        except ZConfig.ConfigurationError as e:
+            a = b = ("reject", type(e).__name__, str(e)[:150])
+        except Exception as e:  # noqa
+            a = b = ("internal", type(e).__name__, str(e)[:150])
+        got[composed] = (a, b)
+    res.evaluations += 1
+    res.count("selfschema_pairs")
+    res.count("selfschema_" + order)
+    res.sig("selfschema|%s|%s|%s" % (order, tname[:1], bool(sname)))
+    want = (("ok", repr(("wrap", want_name, size))),
+            ("ok", repr([("wrap", want_name, size),
+                         ("wrap", "second", size)])))
+    case = {"family": "selfschema", "type": tname, "text": text,
+            "order": order}
+    if got[True] != got[False] or got[False] != want:
+        res.violate("component-read-during-nested-schema-load",
+                    case, {"expanded": list(got[False]), "want": list(want)},
+                    {"composed": list(got[True])},
+                    detail="order=%s type=%s composed=%r expanded=%r"
+                    % (order, tname, got[True], got[False]),
+                    vsig="selfschema|%s|%s" % (order, got[True][0][0]))
+
 
 def run_shard(ctx):
     n = N[ctx.tier]
@@ -661,6 +752,9 @@ def run_shard(ctx):
                                   "c11s%d" % ctx.shard)
     space.split_every = 3
     space.odd_every = 5
+    # plain packages for the family whose packages hold Python modules
+    plain = packages.PackageSpace(os.path.join(ctx.tmp, "pkgs2"),
+                                  "c11x%d" % ctx.shard)
     # a directory name with characters that mean something in a URL
     d = os.path.join(ctx.tmp, "sext %41 #1 é")
     try:
@@ -671,10 +765,13 @@ def run_shard(ctx):
             run_prefix(ctx, i)
             run_schema_extends(ctx, i, d)
             run_components(ctx, i, space)
+            if i % 3 == 0:
+                run_selfschema(ctx, i, plain)
     finally:
         ctx.res.hook("packages_with_two_path_entries",
                      getattr(space, "split_packages", 0))
         space.close()
+        plain.close()
 
 
 def replay(ctx, case):
@@ -682,6 +779,10 @@ def replay(ctx, case):
     space = packages.PackageSpace(os.path.join(ctx.tmp, "pkgs"), "c11r")
     space.split_every = 1       # harmless for correct code
     try:
+        if fam == "selfschema":
+            for i in range(8):
+                run_selfschema(ctx, i, plain)
+            return
         if fam == "schema_extends":
             d = os.path.join(ctx.tmp, "sextr")
             os.makedirs(os.path.join(d, "bases"))
